@@ -561,7 +561,7 @@ int main(int argc, char** argv) {
 	long shard = args.geti("shard", 0), nshards = std::max(1L, args.geti("nshards", 1));
 	int depth = static_cast<int>(args.geti("depth", thorough ? 3 : 2));
 	std::size_t cap = static_cast<std::size_t>(args.geti("cap", thorough ? 48 : 24));
-	std::size_t batch = static_cast<std::size_t>(args.geti("batch", 400));
+	std::size_t batch = static_cast<std::size_t>(args.geti("batch", 1000));
 	mc::set_deadline(static_cast<double>(args.geti("deadline", 3000)));
 
 	{ int fd = dup(1); int nul = open("/dev/null", O_WRONLY); dup2(nul, 1); MPI_Init(&argc, &argv); std::fflush(stdout); dup2(fd, 1); close(fd); close(nul); }   // nothing but protocol lines on stdout
@@ -579,7 +579,7 @@ int main(int argc, char** argv) {
 				explore_any(ss, cfg, skip);
 				nstates += static_cast<long>(ss.st->size()); ntrans += ss.stats.transitions;
 				if(ss.stats.capped) { mc::R.exhaustive = false; }
-				mc::R.note("root {" + sizes_str(ss.sizes) + "}: depth=" + std::to_string(ss.stats.completed_depth) + " states=" + std::to_string(ss.st->size()) + " transitions=" + std::to_string(ss.stats.transitions) + (ss.c01_bad ? " excluded(fail C01)=" + std::to_string(ss.c01_bad) : ""));
+				if(shard == 0) { mc::R.note("root {" + sizes_str(ss.sizes) + "}: depth=" + std::to_string(ss.stats.completed_depth) + " states=" + std::to_string(ss.st->size()) + " transitions=" + std::to_string(ss.stats.transitions) + (ss.c01_bad ? " excluded(fail C01)=" + std::to_string(ss.c01_bad) : "")); }
 				if(ss.c01_bad) { mc::R.add("states_excluded_failing_C01", ss.c01_bad); }
 			}
 			build_roots();
@@ -612,24 +612,30 @@ int main(int argc, char** argv) {
 					} }
 				} }
 			}
-			mc::R.note("single-state configurations: " + std::to_string(total_single) + " = 2 element types x states x {message pack, message unpack (mutable view types), skeleton pack, create_subarray pack, data(begin) pack (1-D non-empty)}");
-			mc::R.note("pair configurations: " + std::to_string(total_pairs) + " executed of " + std::to_string(full_pairs) + " ordered (source state, destination state) pairs with equal num_elements over all ordered root pairs x 2 element types; "
-				+ std::to_string(classes) + " classes (element type, source root, destination root, num_elements, rank:layout class of either side), cap " + std::to_string(cap) + " per class (" + std::to_string(capped_classes) + " classes capped; a capped class still uses every one of its source and destination states)");
+			if(shard == 0) { mc::R.note("single-state configurations: " + std::to_string(total_single) + " = 2 element types x states x {message pack, message unpack (mutable view types), skeleton pack, create_subarray pack, data(begin) pack (1-D non-empty)}"); }
+			if(shard == 0) { mc::R.note("pair configurations: " + std::to_string(total_pairs) + " executed of " + std::to_string(full_pairs) + " ordered (source state, destination state) pairs with equal num_elements over all ordered root pairs x 2 element types; "
+				+ std::to_string(classes) + " classes (element type, source root, destination root, num_elements, rank:layout class of either side), cap " + std::to_string(cap) + " per class (" + std::to_string(capped_classes) + " classes capped; a capped class still uses every one of its source and destination states)"); }
 			mc::R.note("shard " + std::to_string(shard) + "/" + std::to_string(nshards) + ": " + std::to_string(mine.size()) + " of " + std::to_string(total) + " configurations");
 			if(capped_classes) { mc::R.add("pair_classes_capped", shard == 0 ? capped_classes : 0); }
 			run_batches(mine, batch);
-			// ---- written-out samples = determinism self-check: re-run in THIS process configurations the children found correct
-			{
-				std::size_t step = std::max<std::size_t>(1, mine.size()/7); int taken = 0;
-				for(std::size_t i = step/2; i < mine.size() && taken < 4 && mc::R.viol.empty(); i += step) {
-					Cfg const& c = mine[i]; if(!cfg_nontrivial(c)) { continue; }
-					mc::cur_set("sample", replay_of(c));
-					Outcome o = run_any(c); if(o.kind == 'N') { continue; }
-					State const& s = (*W.shapes[static_cast<std::size_t>(c.sr)].st)[static_cast<std::size_t>(c.ss)];
-					std::string offs; for(auto x : s.offs) { offs += (offs.empty() ? "" : ","); offs += std::to_string(x); }
-					mc::R.sample(mc::J().s("replay", replay_of(c)).s("operation", form_name[c.form]).s("source_model", key_of(s.m)).s("canonical_offsets_in_root_store", offs).s("outcome_again_in_parent", std::string(1, o.kind)).str(), 4);
-					if(o.kind == 'V') { for(auto const& sy : o.sy) { mc::R.violation(key_of_cfg(c, sy.tag + "|only-when-repeated"), json_of_cfg(c, "violation", sy)); } }
-					++taken;
+			// ---- written-out samples = determinism self-check: re-run in THIS process one non-degenerate configuration per operation form that the children found correct
+			if(mc::R.viol.empty()) {
+				for(int f : {F_MSG_PACK, F_MSG_UNPACK, F_SUBARRAY_PACK, F_PAIR}) {
+					for(std::size_t i = 0; i < mine.size(); ++i) {
+						Cfg const& c = mine[i]; if(c.form != f) { continue; }
+						State const& s = (*W.shapes[static_cast<std::size_t>(c.sr)].st)[static_cast<std::size_t>(c.ss)];
+						if(s.offs.size() < 4 || s.m.rank() < 2 || s.lclass.find("contiguous") != std::string::npos) { continue; }
+						if(f == F_PAIR && (*W.shapes[static_cast<std::size_t>(c.dr)].st)[static_cast<std::size_t>(c.ds)].lclass.find("permuted") == std::string::npos) { continue; }
+						mc::cur_set("sample", replay_of(c));
+						Outcome o = run_any(c); if(o.kind == 'N') { continue; }
+						std::string offs; for(auto x : s.offs) { offs += (offs.empty() ? "" : ","); offs += std::to_string(x); }
+						mc::J j; j.s("replay", replay_of(c)).s("operation", form_name[c.form]).s("source_model", key_of(s.m)).s("source_layout", s.lclass).s("canonical_offsets_in_source_store", offs);
+						if(f == F_PAIR) { State const& d = (*W.shapes[static_cast<std::size_t>(c.dr)].st)[static_cast<std::size_t>(c.ds)]; std::string od; for(auto x : d.offs) { od += (od.empty() ? "" : ","); od += std::to_string(x); } j.s("destination_model", key_of(d.m)).s("destination_layout", d.lclass).s("canonical_offsets_in_destination_store", od); }
+						j.s("outcome_in_child", "correct").s("outcome_again_in_parent", o.kind == 'C' ? "correct" : o.kind == 'R' ? "rejected" : "violation");
+						mc::R.sample(j.str(), 4);
+						if(o.kind == 'V') { for(auto const& sy : o.sy) { mc::R.violation(key_of_cfg(c, sy.tag + "|only-when-repeated"), json_of_cfg(c, "violation", sy)); } }
+						break;
+					}
 				}
 			}
 			mc::R.add("states", shard == 0 ? nstates : 0); mc::R.add("transitions", shard == 0 ? ntrans : 0);
